@@ -244,9 +244,10 @@ class ADD:
                         result.adder[pidx, i, c] += self.adder[idx, self.child[pidx, i, c], value]
                         result.child[pidx, i, c] = self.child[idx, self.child[pidx, i, c], value]
         else:
-            result.root = self.child[idx, self.root, value]
+            root = self.root
+            result.root = self.child[idx, root, value]
             for c in range(self.num_candidates):
-                result.adder[idx + 1, result.root, c] += self.adder[idx, self.root, value]
+                result.adder[idx + 1, result.root, c] += self.adder[idx, root, value]
             # TODO: Handle root node adders.
         # TODO: Prune dead nodes.
         result.nodes = np.delete(result.nodes, idx, axis=0)
